@@ -590,6 +590,36 @@ fn dump_body<'tcx>(cx: &mut Cx<'tcx>, did: DefId, kind: DefKind, body: &Body<'tc
         if !cps.is_empty() {
             f.push(("cparams", J::arr(cps.iter().map(|s| J::s(s)).collect())));
         }
+        // workspace traits bounding the (peeled) parameter type: `&impl ReadableVec<..>`, `&[&O]` ...
+        if _l.as_usize() >= 1 && _l.as_usize() <= body.arg_count {
+            let mut t = ty;
+            loop {
+                match t.kind() {
+                    ty::Ref(_, inner, _) => t = *inner,
+                    ty::Slice(inner) | ty::Array(inner, _) => t = *inner,
+                    _ => break,
+                }
+            }
+            if matches!(t.kind(), ty::Param(_)) {
+                let mut tb: Vec<String> = Vec::new();
+                let preds = tcx.predicates_of(typeck_owner).instantiate_identity(tcx);
+                for p in preds.predicates.iter() {
+                    let p = p.skip_norm_wip();
+                    if let Some(tp) = p.as_trait_clause() {
+                        let tp = tp.skip_binder();
+                        if tp.self_ty() == t {
+                            let n = tcx.def_path_str(tp.def_id());
+                            if !tb.contains(&n) {
+                                tb.push(n);
+                            }
+                        }
+                    }
+                }
+                if !tb.is_empty() {
+                    f.push(("tbounds", J::arr(tb.iter().map(|s| J::s(s)).collect())));
+                }
+            }
+        }
         locals.push(J::obj(f));
     }
     fields.push(("locals", J::arr(locals)));
